@@ -138,6 +138,18 @@ impl ArrayLike for ExprArray {
 		if index >= self.len() {
 			return Ok(None);
 		}
+		#[cfg(jrsonnet_verif)]
+		crate::verif::emit(
+			"earr",
+			match &self.cached.borrow()[index] {
+				ArrayThunk::Computed(_) => "hit",
+				ArrayThunk::Errored(_) => "hit_err",
+				ArrayThunk::Pending => "reenter",
+				ArrayThunk::Waiting => "start",
+			},
+			std::ptr::from_ref(&*self.cached) as usize,
+			index,
+		);
 		match &self.cached.borrow()[index] {
 			ArrayThunk::Computed(c) => return Ok(Some(c.clone())),
 			ArrayThunk::Errored(e) => return Err(e.clone()),
@@ -155,10 +167,14 @@ impl ArrayLike for ExprArray {
 			Ok(v) => v,
 			Err(e) => {
 				self.cached.borrow_mut()[index] = ArrayThunk::Errored(e.clone());
+				#[cfg(jrsonnet_verif)]
+				crate::verif::emit("earr", "fail", std::ptr::from_ref(&*self.cached) as usize, index);
 				return Err(e);
 			}
 		};
 		self.cached.borrow_mut()[index] = ArrayThunk::Computed(new_value.clone());
+		#[cfg(jrsonnet_verif)]
+		crate::verif::emit("earr", "finish", std::ptr::from_ref(&*self.cached) as usize, index);
 		Ok(Some(new_value))
 	}
 	fn get_lazy(&self, index: usize) -> Option<Thunk<Val>> {
@@ -445,6 +461,18 @@ impl ArrayLike for MappedArray {
 		if index >= self.len() {
 			return Ok(None);
 		}
+		#[cfg(jrsonnet_verif)]
+		crate::verif::emit(
+			"marr",
+			match &self.cached.borrow()[index] {
+				ArrayThunk::Computed(_) => "hit",
+				ArrayThunk::Errored(_) => "hit_err",
+				ArrayThunk::Pending => "reenter",
+				ArrayThunk::Waiting => "start",
+			},
+			std::ptr::from_ref(&*self.cached) as usize,
+			index,
+		);
 		match &self.cached.borrow()[index] {
 			ArrayThunk::Computed(c) => return Ok(Some(c.clone())),
 			ArrayThunk::Errored(e) => return Err(e.clone()),
@@ -469,10 +497,14 @@ impl ArrayLike for MappedArray {
 			Ok(v) => v,
 			Err(e) => {
 				self.cached.borrow_mut()[index] = ArrayThunk::Errored(e.clone());
+				#[cfg(jrsonnet_verif)]
+				crate::verif::emit("marr", "fail", std::ptr::from_ref(&*self.cached) as usize, index);
 				return Err(e);
 			}
 		};
 		self.cached.borrow_mut()[index] = ArrayThunk::Computed(new_value.clone());
+		#[cfg(jrsonnet_verif)]
+		crate::verif::emit("marr", "finish", std::ptr::from_ref(&*self.cached) as usize, index);
 		Ok(Some(new_value))
 	}
 	fn get_lazy(&self, index: usize) -> Option<Thunk<Val>> {
